@@ -215,6 +215,12 @@ theorem lock_scan_discriminates :
 -- pause path of processGetData. The statement above is about the parsing layer only.
 -- OPEN: lock ORDER between functions (deadlock freedom across threads) and freedom from data races on
 -- fields other than the ones gen_c18 tags as shared accesses; the lock scan is per function and
--- path-insensitive. Both are only exercised dynamically (fulldb stream, concurrent child process).
+-- path-insensitive, and follows calls ONE level (a direct callee that locks a mutex its caller holds);
+-- a callee that reaches the caller's mutex two levels down or through a walk over the connection list
+-- is not found. These are only exercised dynamically (fulldb stream, slow-reader stream, concurrent
+-- child process).
+-- OPEN (not modelled): the send path (SendRawMsg ring buffer, overflow ban) and btc.BuildTxListExt's
+-- worker hand-over; both are covered by the differential run only (slow-reader stream; block bodies cut
+-- at every transaction boundary, run in a child process).
 
 end GocoinV.Props.C18
